@@ -136,7 +136,7 @@ func (v *vc) execCall(fr *frame, st *state, instr ssa.Instruction, c *ssa.CallCo
 	var clo *ssa.MakeClosure
 	if c.IsInvoke() {
 		recv := v.val(fr, st, c.Value)
-		if !(fr.fc != nil && fr.fc.nosafety) {
+		if !v.noSafety(fr) {
 			v.oblige(st, "safety", "nil", site, fmt.Sprintf("(not (= (i_type %s) 0))", recv), nil)
 		}
 		if v.intrinsic(fr, st, instr, name, c, append([]string{recv}, args...), res) {
@@ -238,6 +238,10 @@ func (v *vc) canInline(f *ssa.Function) bool {
 func (v *vc) inlineCall(fr *frame, st *state, callee *ssa.Function, clo *ssa.MakeClosure, c *ssa.CallCommon, args []string, res *ssa.Call) {
 	v.ctr++
 	nf := &frame{fn: callee, vals: map[ssa.Value]string{}, addrs: map[ssa.Value]*addr{}, prefix: fmt.Sprintf("%sinl%d.", fr.prefix, v.ctr), parent: fr}
+	if nf.fc == nil && (v.fc != nil && v.fc.nosafety || fr.fc != nil && fr.fc.nosafety) {
+		// a nosafety contract covers the code inlined into it as well
+		nf.fc = &funcContract{nosafety: true, loops: map[int]*loopSpec{}, callRequires: map[string][]*clause{}, expectFail: map[string]bool{}}
+	}
 	for i, p := range callee.Params {
 		if i < len(args) {
 			nf.vals[p] = args[i]
@@ -448,6 +452,9 @@ func (v *vc) contractCall(fr *frame, st *state, instr ssa.Instruction, fc *funcC
 	se.cur = st
 	se.setResults(sig, results)
 	for _, e := range fc.ensures {
+		if mentionsGhost(e.expr, fc) {
+			continue // about the callee's own ghost state: nothing the caller can use
+		}
 		t := se.evalAssume(e.expr)
 		v.fact(st, t)
 	}
@@ -521,7 +528,7 @@ func (v *vc) havocLoc(st *state, l loc) {
 	if l.ref == "" {
 		n := v.fresh(l.heap)
 		v.decl(n, sort)
-		v.heapAxiom(n, l.heap)
+		v.heapAxiom(n, l.heap, "") // the callee may allocate: no bound on the references it stores
 		st.heaps[l.heap] = n
 		return
 	}
